@@ -114,6 +114,20 @@ class ABuilder(Builder):
         return " ".join(out)
 
 
+def nonce_value(base, nonce):
+    """the bytes a nonce stands for (independent of PyTeal)"""
+    import base64
+    if base == "utf8":
+        return nonce.encode("utf-8")
+    if base == "base16":
+        return bytes.fromhex(nonce[2:] if nonce.startswith("0x") else nonce)
+    if base == "base32":
+        return base64.b32decode(nonce + "=" * (-len(nonce) % 8))
+    if base == "base64":
+        return base64.b64decode(nonce)
+    raise ValueError(base)
+
+
 def recipe_latin1(r):
     if isinstance(r, str):
         return latin1(r)
@@ -231,6 +245,17 @@ NAMES = [
     "a\x1cerr", "a\x1derr", "a\x1eerr", "a\x85err", "a err", "a err", "a//b", "a;err", "a; err", 'q"uote', "colon:", "main", "main_l0", "l0", "0", "_",
     "f_0", "caf\xe9", "中文", "x" * 300, "a b;c//d\r\"x", "#pragma version 2", "b main_l0", "-", "*/", "retsub", "f\n// g\nf_0:",
 ]
+
+
+def _junk(n):
+    return ("-+" * n)[:n]
+
+
+# long names: more non-alphanumeric characters than any fixed budget, followed by hazard tails
+LONG_NAMES = [_junk(n) + tail for n in (255, 256, 257, 300, 600)
+              for tail in ("x\nint 0\nreturn\n//", " x y", ":", "x\rerr")]
+LONG_NAMES_QUICK = [_junk(257) + "x\nint 0\nreturn\n//", _junk(256) + " x y", _junk(255) + "x\nerr", _junk(300) + ":", _junk(600) + "x\nint 0\nreturn\n//",
+                    "a1" + _junk(400) + "\nerr\n" + _junk(300) + "b2 c3"]
 
 
 # ------------------------------------------------------------------------------------------------
